@@ -93,6 +93,29 @@ type sitem struct {
 	Sym string   `json:"sym,omitempty"`
 	Set *sx      `json:"set,omitempty"`
 	LA  []lapred `json:"la,omitempty"` // (?= X & !Y ...)
+
+	// A list: Seq (or Sym) repeated, Rep = "+" or "*", optionally separated by the terminal Sep.
+	Rep string   `json:"rep,omitempty"`
+	Seq []string `json:"seq,omitempty"`
+	Sep string   `json:"sep,omitempty"`
+}
+
+func (it sitem) elems() []string {
+	if len(it.Seq) > 0 {
+		return it.Seq
+	}
+	return []string{it.Sym}
+}
+
+func (it sitem) listText() string {
+	el := it.elems()
+	if it.Sep != "" {
+		return "(" + strings.Join(el, " ") + " separator " + it.Sep + ")" + it.Rep
+	}
+	if len(el) == 1 {
+		return el[0] + it.Rep
+	}
+	return "(" + strings.Join(el, " ") + ")" + it.Rep
 }
 
 func (it sitem) laText() string {
@@ -185,6 +208,8 @@ func (s *spec) text() string {
 					fmt.Fprintf(&sb, "set(%s)", it.Set)
 				} else if it.LA != nil {
 					sb.WriteString(it.laText())
+				} else if it.Rep != "" {
+					sb.WriteString(it.listText())
 				} else {
 					sb.WriteString(it.Sym)
 				}
@@ -369,6 +394,32 @@ func bareAliasProblem(s *spec) string {
 	return kind
 }
 
+// sharers is the largest number of named sets that mention one and the same named set directly.
+func sharers(s *spec) int {
+	count := map[string]int{}
+	for _, d := range s.Sets {
+		seen := map[string]bool{}
+		var walk func(e *sx)
+		walk = func(e *sx) {
+			if e.Op == "name" && !seen[e.Sym] {
+				seen[e.Sym] = true
+				count[e.Sym]++
+			}
+			for _, sub := range e.Sub {
+				walk(sub)
+			}
+		}
+		walk(d.Expr)
+	}
+	m := 0
+	for _, n := range count {
+		if n > m {
+			m = n
+		}
+	}
+	return m
+}
+
 func check(s *spec) (v verdict) {
 	text := s.text()
 	ref := evalSpec(s)
@@ -397,6 +448,11 @@ func check(s *spec) (v verdict) {
 			if k == "itself" {
 				class = "bare-alias:of-itself"
 			}
+		}
+		if s.Class == "F" && site == "generate" && strings.HasPrefix(class, "value") {
+			// phase F: a named set with an atom over a NONTERMINAL is referenced from other named
+			// sets while list extraction permutes the nonterminals
+			class = "shared-set-nonterminal-atom:" + fmt.Sprint(sharers(s)) + "-referrers"
 		}
 		v.key = site + ":" + class
 		v.what = fmt.Sprintf(format, args...) + "\n--- grammar ---\n" + text
@@ -690,6 +746,26 @@ func lookaheadGrammars() []*spec {
 	return out
 }
 
+// listHosts: grammars with lists (ta+, (tb ta)*, (ta separator tb)*) whose extracted nonterminals
+// (Ta_list, input$1, Ta_list_Tb_separated and ...opt) sort before, between and after the declared ones.
+func listHosts() []*spec {
+	mk := func(nts []string, rules ...srule) *spec {
+		return &spec{Terms: []string{"ta", "tb", "tc", "td"}, NTs: nts, Inputs: []sinput{{NT: nts[0]}}, Rules: rules}
+	}
+	sym := func(n string) sitem { return sitem{Sym: n} }
+	r := func(lhs string, items ...sitem) srule { return srule{LHS: lhs, RHS: items} }
+	return []*spec{
+		mk([]string{"input", "zz", "yy"},
+			r("input", sym("zz"), sitem{Sym: "ta", Rep: "+"}, sym("yy")), r("zz", sym("tb")), r("yy", sym("tc"))),
+		mk([]string{"Aa", "Mm", "zz"},
+			r("Aa", sym("zz"), sitem{Seq: []string{"tb", "ta"}, Rep: "*"}, sym("Mm")), r("Aa", sym("Aa"), sym("td")),
+			r("Mm", sym("tc"), sym("zz")), r("zz", sym("tb")), r("zz")),
+		mk([]string{"zz", "input", "Aa"},
+			r("zz", sym("Aa"), sitem{Sym: "ta", Rep: "*", Sep: "tb"}, sym("input")), r("input", sitem{Sym: "tc", Rep: "+"}, sym("Aa")), r("input", sym("td")),
+			r("Aa", sym("tb"), sym("zz")), r("Aa")),
+	}
+}
+
 func literals(at []*sx) []*sx {
 	var out []*sx
 	for _, a := range at {
@@ -747,7 +823,7 @@ func run(c *core.Ctx) {
 	c.Rule("phase A: every reduced gramenum grammar of the scope x 5 input configurations x {plain, last terminal = error} with every atom, its complement " +
 		"and 2 compounds per atom; phase B: 3 showcase grammars x all expressions with <=2 literals (atom or ~atom) x {plain, complemented} and all " +
 		"3-literal expressions over 8 literals; phase C: systems of 1..3 named sets whose definitions range over 20..40 templates mentioning each other; " +
-		"phase D: set(expr) inside a rule for every literal, also self-dependent; phase E: 144 grammars whose nonterminals X2, X3 are reachable only through a lookahead predicate (8 predicates with negations and conjunctions x 3 positions x 3 bodies x 2 input lists) with every atom, complement and compound. 20 %generate per text. evaluations = grammar texts (all distinct, each with ~20 named sets); nontrivial = texts with at least one " +
+		"phase D: set(expr) inside a rule for every literal, also self-dependent; phase E: 144 grammars whose nonterminals X2, X3 are reachable only through a lookahead predicate (8 predicates with negations and conjunctions x 3 positions x 3 bodies x 2 input lists) with every atom, complement and compound; phase F: 3 grammars with lists (extracted nonterminals sort before/between/after the declared ones) x every atom over a nonterminal x 8 systems of named sets referring to it at depth 1..3 and fan-out 1..3. 20 %generate per text. evaluations = grammar texts (all distinct, each with ~20 named sets); nontrivial = texts with at least one " +
 		"named set whose value is neither empty nor the whole terminal universe (the per-expression count is distinct_expression_value_pairs)")
 	c.Assume("the complement universe is every terminal of the grammar: eoi, invalid_token, error and all lexer tokens (sides with syntax/set.go; no documentation)")
 	c.Assume("follow/precede never contain eoi; `any` of a nonterminal = terminals occurring in the rules reachable from it; an empty set(...) inside a rule derives the empty string (sides with the implementation)")
@@ -1041,6 +1117,44 @@ func run(c *core.Ctx) {
 		runSpecs(withSets(base, exprs, "E"))
 	}
 	c.Outcome("phaseE-texts", nTexts-before)
+
+	// ---- phase F: named sets over nonterminal atoms that are referenced from other named sets, in
+	// grammars where list extraction adds nonterminals that sort between the declared ones
+	before = nTexts
+	{
+		var specs []*spec
+		for _, host := range listHosts() {
+			var atoms []*sx
+			for _, n := range host.NTs {
+				for _, op := range []string{"first", "last", "any", "follow", "precede"} {
+					atoms = append(atoms, atom(op, n))
+				}
+			}
+			td := atom("any", host.Terms[len(host.Terms)-1])
+			other := atom("first", host.NTs[len(host.NTs)-1])
+			a, b2, c2, d2 := nameRef("A"), nameRef("B"), nameRef("C"), nameRef("D")
+			for _, at := range atoms {
+				systems := [][]sdef{
+					{{Name: "A", Expr: at}}, // nothing shared
+					{{Name: "A", Expr: at}, {Name: "B", Expr: or(a, td)}},
+					{{Name: "B", Expr: or(a, td)}, {Name: "A", Expr: at}}, // referenced before it is declared
+					{{Name: "A", Expr: at}, {Name: "B", Expr: or(a, td)}, {Name: "C", Expr: or(b2, other)}},
+					{{Name: "A", Expr: at}, {Name: "B", Expr: and(a, other)}, {Name: "C", Expr: or(a, td)}}, // fan-out 2
+					{{Name: "A", Expr: at}, {Name: "B", Expr: or(a, td)}, {Name: "C", Expr: and(b2, not(td))}, {Name: "D", Expr: or(c2, other)}},
+					{{Name: "A", Expr: at}, {Name: "B", Expr: not(a)}, {Name: "C", Expr: or(a, b2)}, {Name: "D", Expr: and(a, or(b2, c2))}}, // fan-out 3
+					{{Name: "A", Expr: or(at, other)}, {Name: "B", Expr: and(a, a)}, {Name: "C", Expr: or(d2, a)}, {Name: "D", Expr: at}},
+				}
+				for _, sys := range systems {
+					sp := *host
+					sp.Class = "F"
+					sp.Sets = sys
+					specs = append(specs, &sp)
+				}
+			}
+		}
+		runSpecs(specs)
+	}
+	c.Outcome("phaseF-texts", nTexts-before)
 
 	if !c.Quick() {
 		before = nTexts
